@@ -621,8 +621,12 @@ PROPS["C03"] = {
                   "constants yields the denoted value of Spec.ConstSem, emits no code, and stays within 64 bits), "
                   "undefined_rejected (division by zero, overflow, negative or too large shift are refused), "
                   "shl_accepts_exactly_representable, literal_value (parse_number_str returns the ECMAScript MV for every integer "
-                  "literal spelling), int_text_roundtrip; F6/F8 witnesses for the pre-repair behaviour. End-to-end embedding is "
-                  "decided by the c03 stream against the specification (partial).",
+                  "literal spelling), int_text_roundtrip; F6/F8 witnesses for the pre-repair behaviour. END-TO-END on ConstFrag ::= integer | true | "
+                  "false | float | string | null | unary e | e (+) e ((+) not && ||): walk_const_sound (the walk returns a constant c, "
+                  "state unchanged, ConstSem.eval e = val (valOf c)), walk_const_rejects_undefined / walk_const_fails_with_diagnostic "
+                  "(undefined or ill-typed: walk fails, no code, >= 1 diagnostic), walk_const_integer_too_large (literals >= 2^63), "
+                  "build_const_evaluates (a built binding's evaluateCode is evaluatedOf c, denoted (evaluatedOf c) = valOf c), "
+                  "build_const_rejects_undefined. Casts and expressions with && / || / ?: on constants stay with the c03 stream.",
     "level_note": "trusted: Lean kernel; models tied by exact comparison (ir stream: IR and evaluated constants; c03: literals); IEEE "
                   "primitives; F6, F7, F8 were genuine defects, repaired in /repo (2f8ccf9, 9b906e0, 568b1aa), witnesses in corpus/C03",
     "technique": "Lean 4 proof (constant folder = denotational spec per operator, number-literal parser = ECMAScript MV) + "
@@ -823,12 +827,18 @@ PROPS["C01"] = {
                   "(emit_result: one fresh local, append-only, previously computed locals preserved), unary_correct / binary_correct "
                   "(the emitted statement computes Spec.Sem.unop/binop), logical_wiring + logical_and_value / logical_or_value "
                   "(short-circuit CFG fragment), ternary_fragment, if_fragment + if_wiring, return_of_completion, and "
-                  "compile_correct_partial END-TO-END (build -> IR -> IrSem = Spec.Sem in every world) for the STRAIGHT-LINE fragment "
-                  "P ::= e, e ::= integer | true | false | o.p | unary e | e (+) e with every unary and every non-logical binary operator "
-                  "(by induction over the monadic walkExpr with the builder invariant Grows: QV.Proofs.SemStraight.walk_straight; "
-                  "folded constants via fold_const_binary/unary, typed results via binop_dyn_not_cint); compile_correct_property_read "
-                  "(the earlier special case o.p). Not in the induction: variables, float/string/null literals, calls, casts, "
-                  "&& || ?: (their CFG fragments are separate theorems), statements. "
+                  "compile_correct_partial END-TO-END (build -> IR -> IrSem = Spec.Sem in every world) for P ::= e, e ::= integer | true | false "
+                  "| o.p | unary e | e (+) e | e && e | e || e | e ? e : e (nested arbitrarily), and compile_correct_block END-TO-END for "
+                  "P ::= { B }, B ::= e | return e | let x = e; B | const x = e; B with reads of the declared variables. Both come from ONE "
+                  "induction over the monadic walk at CFG level (walk_fragment / walk_block_fragment; steps walk_logical, walk_ternary, "
+                  "walk_block_let). Invariants: Walked (blocks below the entry block untouched, entry block append-only, blocks "
+                  "entry..exit terminated, exit block open), TyRel (operand type = Spec.Sem.staticTy where untyped constants are "
+                  "converted), Sim (over any final code covering the builder, from the entry position to the exit position, reference "
+                  "value in the operand), VarRel/ValRel (name map ~ variable stack ~ IR locals). finalize_completion_values for a final "
+                  "expression (return_of_completion) and a final return (finalize_after_return). compile_correct_straight is the earlier "
+                  "straight-line form as corollary; compile_correct_property_read the earlier special case o.p. Not in the induction: "
+                  "assignment to variables, typed/uninitialised declarations, nested blocks, float/string/null literals, calls, casts, "
+                  "subscripts, if/switch/break. "
                   "Everything beyond is decided by execution of the real C++ and of the real IR against Spec.Sem.",
     "level_note": "trusted: Lean kernel, g++, the runtime mock; quick tier (seed 20260925): 68 spec-c01 requests / 60 translation units, "
                   "~1 850 programs x 12 states run (~14 200 values compared, ~25 % of the states undefined and skipped), 2 352 real IRs "
@@ -839,7 +849,7 @@ PROPS["C01"] = {
                   "— regression witness corpus/C01/let_in_if_branch; F41 (an integer constant whose C++ spelling is a long literal — "
                   "outside int, or -2147483648 — as argument of Math.max/min: std::max/min deduction fails in every argument "
                   "order, the header does not compile) — KNOWN, attributed semantically by the driver tag f41-spec-c01 (quick 0, "
-                  "thorough 16 batches, corpus 7, no unattributed failure) Spec.Sem scopes the statement list of each switch clause separately (declarations end with the clause, also on fall-through; later clauses see the outer variable) — the language after repair 0aff63c (F100); stated deviation from ECMAScript, where the case block is one scope; regression witnesses corpus/C01/switch_clause_scope.c01.req, corpus/C13/switch_clause_scope.c13.req, targeted labels switch-clause-scope-*",
+                  "thorough 16 batches, corpus 7, no unattributed failure). Spec.Sem scopes the statement list of each switch clause separately (declarations end with the clause, also on fall-through; later clauses see the outer variable) — the language after repair 0aff63c (F100); stated deviation from ECMAScript, where the case block is one scope; regression witnesses corpus/C01/switch_clause_scope.c01.req, corpus/C13/switch_clause_scope.c13.req, targeted labels switch-clause-scope-*",
     "technique": "Lean 4 proof (per-construct compiler correctness lemmas over an executable reference semantics) + specification-judged "
                  "execution of the real generated C++ and of the real IR",
 }
@@ -896,7 +906,7 @@ PROPS["C13"] = {
                   "contradicts a pinned snapshot), attributed semantically by the driver tag f42-spec-c13: the real traces must equal "
                   "Spec.Sem with ONLY the arguments-first deviation (quick 5, thorough 43 batches); F44 (F41's cause in a handler: "
                   "long literal as argument of Math.max/min or of the overloaded slot bump(int)/bump(double): header does not compile) — "
-                  "KNOWN, tag f41-spec-c13 (quick 1, thorough 9); no unattributed failure in either tier Spec.Sem scopes the statement list of each switch clause separately (declarations end with the clause, also on fall-through; later clauses see the outer variable) — the language after repair 0aff63c (F100); stated deviation from ECMAScript, where the case block is one scope; regression witnesses corpus/C01/switch_clause_scope.c01.req, corpus/C13/switch_clause_scope.c13.req, targeted labels switch-clause-scope-*",
+                  "KNOWN, tag f41-spec-c13 (quick 1, thorough 9); no unattributed failure in either tier. Spec.Sem scopes the statement list of each switch clause separately (declarations end with the clause, also on fall-through; later clauses see the outer variable) — the language after repair 0aff63c (F100); stated deviation from ECMAScript, where the case block is one scope; regression witnesses corpus/C01/switch_clause_scope.c01.req, corpus/C13/switch_clause_scope.c13.req, targeted labels switch-clause-scope-*",
     "technique": "Lean 4 proof (overload choice, parameter rule, name mapping) + specification-judged execution of the real generated C++",
 }
 
